@@ -92,7 +92,7 @@ class PruneRegraphSampler(object):
 
         trees = self._create_sampled_trees_array(remaining_nodes, pruned_tree, subtree)
 
-        log_p = np.array([np.log(n + 1) + self.tree_dist.log_p_one(x) for n, x in trees])
+        log_p = np.array([self.tree_dist.log_p_one(x) for n, x in trees])
 
         p, _ = exp_normalize(log_p)
 
